@@ -693,7 +693,8 @@ func (c *specCtx) call(x *ast.CallExpr) specVal {
 	case "held":
 		v := c.eval(args[0])
 		vc.svDeclare("G_held", "(Array Int Int)")
-		return specVal{term: fmt.Sprintf("(= (select %s %s) 1)", vc.get(c.st, "G_held"), v.term), typ: tBool}
+		vc.svDeclare("G_nheld", "Int")
+		return specVal{term: fmt.Sprintf("(and (= (select %s %s) 1) (>= %s 1))", vc.get(c.st, "G_held"), v.term, vc.get(c.st, "G_nheld")), typ: tBool}
 	case "rheld":
 		v := c.eval(args[0])
 		vc.svDeclare("G_held", "(Array Int Int)")
@@ -702,6 +703,10 @@ func (c *specCtx) call(x *ast.CallExpr) specVal {
 		v := c.eval(args[0])
 		vc.svDeclare("G_held", "(Array Int Int)")
 		return specVal{term: fmt.Sprintf("(= (select %s %s) 0)", vc.get(c.st, "G_held"), v.term), typ: tBool}
+	case "nolocks":
+		vc.svDeclare("G_nheld", "Int")
+		vc.svDeclare("G_held", "(Array Int Int)")
+		return specVal{term: fmt.Sprintf("(and (= %s 0) (= %s ((as const (Array Int Int)) 0)))", vc.get(c.st, "G_nheld"), vc.get(c.st, "G_held")), typ: tBool}
 	case "dirty":
 		vc.svDeclare("G_dirty", "Bool")
 		return specVal{term: vc.get(c.st, "G_dirty"), typ: tBool}
@@ -784,6 +789,15 @@ func (c *specCtx) call(x *ast.CallExpr) specVal {
 		sv := vc.eventCounter(s)
 		av, typ := vc.eventArg(s, i)
 		return specVal{term: fmt.Sprintf("(select %s (+ %s %s))", vc.get(c.st, av), vc.get(c.old, sv), k.term), typ: typ}
+	case "has":
+		m := c.eval(args[0])
+		k := c.eval(args[1])
+		mt, ok := m.typ.Underlying().(*types.Map)
+		if !ok {
+			fail("has: not a map")
+		}
+		dom, _ := vc.mapSV(mt)
+		return specVal{term: fmt.Sprintf("(and (not (= %s 0)) (select (select %s %s) %s))", m.term, vc.get(c.st, dom), m.term, k.term), typ: tBool}
 	case "condlock":
 		a := c.eval(args[0])
 		return specVal{term: fmt.Sprintf("(cond_lock %s)", a.term), typ: tInt}
@@ -994,7 +1008,7 @@ func (c *specCtx) inlinePure(fn *ssa.Function, args []string) specVal {
 	}
 	nf := vc.newFrame(fn, c.fr.depth+1)
 	st := c.st.clone()
-	st.pc = vc.fresh("Bool", "specpc")
+	st.pc = "true"
 	vc.inSpec++
 	_, res := vc.execFunction(nf, st, args)
 	vc.inSpec--
@@ -1034,6 +1048,9 @@ func (vc *VC) havocTarget(cf *Frame, st, pre *State, target string) {
 		ev := vc.elemSV(sl.Elem())
 		na := vc.fresh(fmt.Sprintf("(Array Int %s)", vc.sortOf(sl.Elem())), "hv_elems")
 		vc.set(st, ev, fmt.Sprintf("(store %s (s_arr %s) %s)", vc.get(st, ev), v.term, na))
+		if vc.frameFr != nil {
+			vc.assignCheck(vc.frameFr, st, ev, fmt.Sprintf("(s_arr %s)", v.term), vc.framePos)
+		}
 		return
 	}
 	i := strings.LastIndex(target, ".")
@@ -1046,6 +1063,9 @@ func (vc *VC) havocTarget(cf *Frame, st, pre *State, target string) {
 	if t := vc.eng.lookupNamedType(cf.fn, baseS); t != nil {
 		for _, sv := range vc.svsOfField(t, field) {
 			vc.havocSV(st, sv)
+			if vc.frameFr != nil {
+				vc.assignCheckWhole(vc.frameFr, st, sv, vc.framePos)
+			}
 		}
 		return
 	}
@@ -1079,10 +1099,29 @@ func (vc *VC) havocTarget(cf *Frame, st, pre *State, target string) {
 		if k == len(path)-1 {
 			if loc.kind == "sub" {
 				vc.havocStruct(st, loc.subRef, ft)
+				if vc.frameFr != nil {
+					ms := map[string]bool{}
+					vc.modStruct(ft, ms)
+					for sv := range ms {
+						vc.assignCheck(vc.frameFr, st, sv, loc.subRef, vc.framePos)
+					}
+				}
 			} else {
 				h := vc.fresh(vc.sortOf(ft), "hv_"+field)
 				vc.typeFacts(st, h, ft)
 				vc.writeLoc(st, loc, h)
+				if vc.frameFr != nil {
+					vc.assignCheck(vc.frameFr, st, loc.sv, loc.base, vc.framePos)
+				}
+				if mt, ok := ft.Underlying().(*types.Map); ok {
+					// contents of a map-typed field may change
+					d, vv := vc.mapSV(mt)
+					mref := vc.readLoc(pre, loc)
+					for _, sv := range []string{d, vv} {
+						na := vc.fresh(strings.TrimPrefix(strings.TrimSuffix(vc.svSort[sv], ")"), "(Array Int "), "hv_map")
+						vc.set(st, sv, fmt.Sprintf("(store %s %s %s)", vc.get(st, sv), mref, na))
+					}
+				}
 			}
 			return
 		}
